@@ -160,7 +160,7 @@ class C05:
                 opts = HAND[sc]
             else:
                 opts = draw(schemas(nocase=bool(flags & F_NOCASE), allow_func=False, allow_ptr=False, allow_deprecated=False,
-                                    allow_single_title=False, allow_simple=True))
+                                    allow_single_title=True, allow_simple=True))
                 sc = opts
             ops = []
             handles = {}          # handle -> sub-option list (sections created by addtsec)
